@@ -3,7 +3,17 @@ deterministic scenarios through harness/ctl.py, oracles in harness/m1.py."""
 
 from .. import m1
 
-REQUIRED_THEOREMS = []
+REQUIRED_THEOREMS = [
+    "C09.no_pull_after_abort",
+    "C09.all_is_eager",
+    "C09.pulls_only_in_locked_region",
+    "C09.lookahead_bound_state",
+    "C09.size_invariant",
+    "C09.parked_bound",
+    "C09.lookahead_bound_partial",
+    "C09.lookahead_unbounded_counterexample",
+    "C09.auto_batch_size_at_most_doubles",
+]
 TRUSTED_EXTRA = [
     "M1 granularity: completion callbacks are atomic and happen at hook points of the caller (configure, compute_batch_size, sleep, consumer "
     "pauses); interleavings inside a callback or between two bytecodes of the caller are not in the model",
